@@ -232,6 +232,8 @@ func runC15(c *Ctx) {
 		"onConnect sets the state before emitBuffered, emitBuffered clears under the mutex", 3)
 	bufferDecisionAtomic(c, "C15-D6")
 
+	c15EmitterModifiers(c)
+
 	c.Rule("C15-D4", "a new outage starts a new back-off cycle, and volatile means volatile everywhere: Manager.onClose resets the attempt counter on every path — whatever the reason and whether or not it starts a reconnect "+
 		"(a counter left non-zero by an interrupted cycle makes the next failed Open look like a retry that must not be retried) —, and a volatile emit never enters the retry queue (it would be delivered after the reconnect)", 3)
 	{
